@@ -37,6 +37,9 @@ type Script struct {
 	Events []string `json:"events"`
 	// CloseErr makes readers' Close return an error.
 	CloseErr bool `json:"close_err,omitempty"`
+	// CtxErr: a failing member fails with an error that wraps context.DeadlineExceeded (a timeout of
+	// its own, not the caller's cancellation).
+	CtxErr bool `json:"ctx_err,omitempty"`
 	// Timed variant: instead of exact events, members answer after virtual delays.
 	Delay  [2]int `json:"delay,omitempty"`  // ms
 	Cancel int    `json:"cancel,omitempty"` // ms; 0 = never
@@ -72,6 +75,7 @@ type member struct {
 	ok       bool
 	mode     string
 	release  chan struct{}
+	ctxErr   bool
 	delay    time.Duration
 	closeErr bool
 
@@ -102,10 +106,17 @@ func (m *member) wait(ctx context.Context) {
 	m.returned = true
 }
 
+func (m *member) failure() error {
+	if m.ctxErr {
+		return fmt.Errorf("member %d gave up on its own: %w", m.id, context.DeadlineExceeded)
+	}
+	return errMember[m.id]
+}
+
 func (m *member) read(ctx context.Context) (ociregistry.BlobReader, error) {
 	m.wait(ctx)
 	if !m.ok {
-		return nil, errMember[m.id]
+		return nil, m.failure()
 	}
 	r := &reader{member: m.id, ctx: ctx, r: strings.NewReader("x"), closeErr: m.closeErr}
 	m.readers = append(m.readers, r)
@@ -115,7 +126,7 @@ func (m *member) read(ctx context.Context) (ociregistry.BlobReader, error) {
 func (m *member) resolve(ctx context.Context) (ociregistry.Descriptor, error) {
 	m.wait(ctx)
 	if !m.ok {
-		return ociregistry.Descriptor{}, errMember[m.id]
+		return ociregistry.Descriptor{}, m.failure()
 	}
 	return ociregistry.Descriptor{Digest: digest.FromString("x"), Size: 1, MediaType: fmt.Sprintf("member/%d", m.id)}, nil
 }
@@ -151,7 +162,7 @@ func run(s Script, v *vt.V) {
 		base := bubbleGoroutines()
 		ms := [2]*member{}
 		for i := range ms {
-			ms[i] = &member{id: i, ok: s.OK[i], mode: s.Mode[i], release: make(chan struct{}), closeErr: s.CloseErr}
+			ms[i] = &member{id: i, ok: s.OK[i], mode: s.Mode[i], release: make(chan struct{}), closeErr: s.CloseErr, ctxErr: s.CtxErr}
 			if s.Timed {
 				ms[i].delay = time.Duration(s.Delay[i]) * time.Millisecond
 			}
@@ -484,6 +495,9 @@ func enumerate(yield func(Script) bool) {
 									e2 = append(e2, "X")
 								}
 								if !yield(Script{Entry: entry, OK: ok, Mode: [2]string{"gate", "gate"}, Events: e2, CloseErr: closeErr}) {
+									return
+								}
+								if !(ok[0] && ok[1]) && !yield(Script{Entry: entry, OK: ok, Mode: [2]string{"gate", "gate"}, Events: e2, CloseErr: closeErr, CtxErr: true}) {
 									return
 								}
 							}
